@@ -129,7 +129,8 @@ class Fn:
             ck = n.get('castKind')
             s, k = self.expr(inner[0], env, want)
             tk = self.kind_of(n)
-            if ck in ('LValueToRValue', 'NoOp', 'FunctionToPointerDecay', 'ArrayToPointerDecay', 'ConstructorConversion', 'UserDefinedConversion'):
+            if ck in ('LValueToRValue', 'NoOp', 'FunctionToPointerDecay', 'ArrayToPointerDecay', 'ConstructorConversion', 'UserDefinedConversion',
+                      'UncheckedDerivedToBase', 'DerivedToBase'):      # base-class view of the same object (e.g. Eigen's operator[] on a member array)
                 if K in ('CStyleCastExpr', 'CXXFunctionalCastExpr', 'CXXStaticCastExpr') and ck == 'NoOp':
                     return self.cast_to(s, k, tk)
                 return s, k
